@@ -159,7 +159,7 @@ switch parameter the value of the selected case — and it is the node's first a
 theorem C03_switch_body_arguments (P : Program) (val : Node → Option Val) (hsw : SwP P) (hsol : SolutionSw P val)
     (s : St) (log : List Obs) (h : Exec P s log) (n inv k : Nat) (kw : Kwargs) (hb : Obs.body n inv k kw ∈ log) :
     kw = kwFrom P val n ∧ (∀ p ∈ P.g.preds n, (val p).isSome = true) ∧ inv = 0 := by
-  have a : Att P val n k kw inv := (safe_exec hsw hsol h).2 _ hb
+  have a : Att P val n k kw inv := (safe_exec_sw hsw hsol h).2 _ hb
   refine ⟨a.kw_eq, ?_, a.inv0⟩
   have := a.preds
   rw [List.all_eq_true] at this
@@ -170,6 +170,7 @@ its node -/
 theorem C03_switch_results_final (P : Program) (val : Node → Option Val) (hsw : SwP P) (hsol : SolutionSw P val)
     (s : St) (h : Reach P s) (n : Node) (v : Val) (hr : s.res n = some v) :
     val n = some v ∧ v.isRecur = false ∧ v.isExc = false :=
-  ⟨((safe_reach hsw hsol h).data.agree n v hr).1, (safe_reach hsw hsol h).data.vals n v hr⟩
+  have hne := (safe_reach_sw hsw hsol h).data.noExc hsw.noHeads n v hr
+  ⟨(safe_reach_sw hsw hsol h).data.agree n v hr hne, (safe_reach_sw hsw hsol h).data.vals n v hr, hne⟩
 
 end MLPE.Eng
